@@ -578,7 +578,7 @@ func (ttr *TagTreeReader) getOrInsertMatchingTSIDs(mName uint64, tagValue uint64
 				treeOffset += 2
 				rawTagValue = tagTreeBuf[treeOffset : treeOffset+uint32(tagValueLen)]
 				treeOffset += uint32(tagValueLen)
-			} else if tagRawValueType[0] == sutils.VALTYPE_ENC_FLOAT64[0] {
+			} else if tagRawValueType[0] == sutils.VALTYPE_ENC_FLOAT64[0] || tagRawValueType[0] == sutils.VALTYPE_ENC_INT64[0] {
 				rawTagValue = tagTreeBuf[treeOffset : treeOffset+8]
 				treeOffset += 8
 			} else {
